@@ -22,9 +22,9 @@ impl Pcm {
     }
 }
 
-pub const FAMILIES: [&str; 14] = [
+pub const FAMILIES: [&str; 17] = [
     "silence", "dc", "fullscale", "alt_fullscale", "impulses", "sine_noise", "white", "heavy_tail",
-    "anti_stereo", "same_stereo", "loud_silent_mix", "ramp", "near_constant", "sine_small",
+    "anti_stereo", "same_stereo", "loud_silent_mix", "ramp", "near_constant", "sine_small", "tone_hf", "ar1", "dense_impulses",
 ];
 
 fn clampv(v: f64, bps: usize) -> i32 {
@@ -63,6 +63,39 @@ pub fn channel(rng: &mut Rng, family: &str, bps: usize, len: usize) -> Vec<i32> 
             let noise = if rng.chance(30) { 0.0 } else { amp / 16.0 + 1.0 };
             (0..len)
                 .map(|t| clampv(amp * (t as f64 * 6.283185307 / period).sin() * 0.9 + noise * rng.gauss(), bps))
+                .collect()
+        }
+        "dense_impulses" => {
+            // every k-th sample loud, zeros elsewhere: low entropy estimate, enormous Rice cost at small
+            // parameters (quotient sums beyond 2^32 for 20/24-bit input)
+            let k = *rng.pick(&[2usize, 4, 8, 8, 16]);
+            let mag = (1i64 << (bps - 2 - rng.below(2) as usize)) as i32;
+            (0..len).map(|t| if t % k == 0 { if rng.chance(50) { mag } else { -mag } } else { 0 }).collect()
+        }
+        "tone_hf" => {
+            // high-frequency tone at mid/high amplitude with a little noise: a strongly predictable signal
+            // whose LPC coefficients are large (sum |c| ~ 2^15..2^17): exercises the i32/i64 dispatch of
+            // compute_error and large intermediate products in decoders
+            let k = (bps / 2 + rng.below((bps / 2) as u64) as usize).min(bps - 1);
+            let amp = (1u64 << k) as f64 * 0.9;
+            let period = 2.1 + (rng.below(80) as f64) / 10.0;
+            let noise = (1u64 << (k / 2)) as f64 * (rng.below(4) as f64) / 4.0;
+            (0..len)
+                .map(|t| clampv(amp * (t as f64 * 6.283185307 / period).sin() + noise * rng.gauss(), bps))
+                .collect()
+        }
+        "ar1" => {
+            // weakly correlated noise (AR(1) with small rho of either sign): all LPC coefficients small,
+            // which drives the quantiser's shift to its upper limit
+            let rho = (rng.below(61) as f64 - 30.0) / 100.0;
+            let k = 1 + rng.below(bps as u64 - 1) as usize;
+            let amp = (1u64 << k) as f64 / 3.0;
+            let mut prev = 0.0f64;
+            (0..len)
+                .map(|_| {
+                    prev = rho * prev + amp * rng.gauss();
+                    clampv(prev, bps)
+                })
                 .collect()
         }
         "white" => {
@@ -152,6 +185,8 @@ pub fn random_pcm(rng: &mut Rng, bs: usize, max_samples: usize) -> Pcm {
         3 => "sine_small",
         4 => "ramp",
         5 => "heavy_tail",
+        6 => "tone_hf",
+        7 => "ar1",
         _ => *rng.pick(&FAMILIES),
     };
     let channels = match rng.below(10) {
